@@ -9,10 +9,13 @@ import random as _pyrandom
 
 from .core import HarnessError
 
-KEY_KINDS = ('int', 'str', 'tuple', 'fd')
+KEY_KINDS = ('int', 'str', 'tuple', 'fd', 'negint')
 
 
 def skey(kind, i):
+    if kind == 'negint':
+        # negative ints: in CPython hash(-1) == hash(-2), two unequal keys with one hash
+        return -(0 + i + 1)
     if kind == 'float':
         # twin of 'int': keys that compare (and hash) equal to the int keys but are of another type
         return float(i)
@@ -32,6 +35,9 @@ def skey(kind, i):
 
 
 def akey(kind, i):
+    if kind == 'negint':
+        # negative ints: in CPython hash(-1) == hash(-2), two unequal keys with one hash
+        return -(100 + i + 1)
     if kind == 'float':
         # twin of 'int': keys that compare (and hash) equal to the int keys but are of another type
         return float(100 + i)
@@ -51,6 +57,9 @@ def akey(kind, i):
 
 
 def okey(kind, i):
+    if kind == 'negint':
+        # negative ints: in CPython hash(-1) == hash(-2), two unequal keys with one hash
+        return -(200 + i + 1)
     if kind == 'float':
         # twin of 'int': keys that compare (and hash) equal to the int keys but are of another type
         return float(200 + i)
@@ -180,7 +189,7 @@ class MDPView:
         return min(rs), max(rs)
 
 
-def make_mdp(view, ctx=None, dist='dict', alias='fresh', explicit_lists=False):
+def make_mdp(view, ctx=None, dist='dict', alias='fresh', explicit_lists=False, stored_dists=False):
     """Expose the spec through msdm's QuickTabularMDP.  `ctx` (optional)
     receives call-back notifications: ctx.cb(name, *ids).
 
@@ -192,7 +201,10 @@ def make_mdp(view, ctx=None, dist='dict', alias='fresh', explicit_lists=False):
       'tuple'  a new tuple per call.
     explicit_lists: the model declares its state and action lists itself (every
     state of the spec, reachable from the initial states or not) instead of
-    letting msdm infer them by reachability."""
+    letting msdm infer them by reachability.  True/'id' = id order, 'swap' = two
+    middle states swapped, 'reversed', or a list of state ids.
+    stored_dists: the model keeps ONE DictDistribution object per (state, action)
+    and hands that object out on every call (see update_model_in_place)."""
     from msdm.core.mdp import QuickTabularMDP
     from msdm.core.distributions import DictDistribution
     sk, ak, sid, aid = view.sk, view.ak, view.sid, view.aid
@@ -201,10 +213,17 @@ def make_mdp(view, ctx=None, dist='dict', alias='fresh', explicit_lists=False):
         if ctx is not None:
             ctx.cb(*a)
 
+    store = {}
+    holder = dict(view=view)      # the table the probabilities are read from (update_model_in_place swaps it)
+
     def next_state_dist(s, a):
         si, ai = sid[s], aid[a]
         cb('next_state_dist', si, ai)
-        return DictDistribution({sk[t]: p for t, p in view.Tall[si, ai]})
+        if stored_dists:
+            if (si, ai) not in store:
+                store[si, ai] = DictDistribution({sk[t]: p for t, p in holder['view'].Tall[si, ai]})
+            return store[si, ai]
+        return DictDistribution({sk[t]: p for t, p in holder['view'].Tall[si, ai]})
 
     def reward(s, a, ns):
         cb('reward', sid[s], aid[a], sid[ns])
@@ -236,9 +255,42 @@ def make_mdp(view, ctx=None, dist='dict', alias='fresh', explicit_lists=False):
                         initial_state_dist=initial_state_dist, is_absorbing=is_absorbing,
                         discount_rate=view.gamma)
     if explicit_lists:
-        m._state_list = [sk[i] for i in range(view.N)]
+        order = list(range(view.N))
+        if explicit_lists == 'swap' and view.N >= 4:
+            order[1], order[2] = order[2], order[1]
+        elif explicit_lists == 'reversed':
+            order.reverse()
+        elif isinstance(explicit_lists, (list, tuple)):
+            order = list(explicit_lists)
+        m._state_list = [sk[i] for i in order]
         m._action_list = [ak[i] for i in range(view.spec['nA'])]
+    m._verif_store = store
+    m._verif_holder = holder
     return m
+
+
+def rotated_probability_spec(spec):
+    """A sibling with the same states, actions, listed successors and rewards but with the probabilities of each
+    (state, action) rotated among its listed successors (zero entries included), for "model updated in place"."""
+    import copy
+    sp = copy.deepcopy(spec)
+    for tr in sp['trans']:
+        outs = tr[2]
+        if len(outs) > 1:
+            ps = [o[1] for o in outs]
+            ps = ps[1:] + ps[:1]
+            for o, p in zip(outs, ps):
+                o[1] = p
+    return sp
+
+
+def update_model_in_place(mdp, new_view):
+    """Fault F9 for models: the stored distribution objects get the probabilities of `new_view` (same keys)."""
+    sk = new_view.sk
+    for (s, a), d in mdp._verif_store.items():
+        for t, p in new_view.Tall[s, a]:
+            d[sk[t]] = p
+    mdp._verif_holder['view'] = new_view
 
 
 # ------------------------------------------------------------------ POMDP spec
